@@ -124,6 +124,7 @@ func checkC09(p *core.Program, r *core.Report) {
 	r.Rule("O9.3", "mode constant ↔ prover ↔ circuit agreement between handler and CLI setup")
 	r.Rule("O9.4", "guard-covers-use: index bounds in the provers ⊆ length equalities enforced by ValidateShape, which dominates the indexing")
 	r.Rule("O9.5", "json.Marshal arguments expose MarshalJSON to encoding/json")
+	r.Rule("O9.7", "imported verdict: requests are isolated from one another (C13), so an answered request leaves the server able to answer the next")
 	r.Rule("O9.6", "imported verdicts: prover wiring and circuits (C07 ⊇ C01–C03), parameter decoder (C16)")
 	r.Trusted = append(r.Trusted, "net/http: first WriteHeader wins, panics in handlers are recovered per connection", "encoding/json rejects ill-typed documents with an error", "groth16.Prove returns an error for an unsatisfied system")
 	r.NotDecided = append(r.NotDecided, "panics/hangs inside third-party code for arbitrary bodies", "validity of the returned proof (C07)")
@@ -188,6 +189,9 @@ func checkC09(p *core.Program, r *core.Report) {
 	// O9.6: "only a valid batch yields 200 with a proof that verifies; an invalid one yields proving_error; a non-document
 	// yields malformed_body" rests on the prover wiring/circuits (C07, which imports C01–C03) and on the strict decoder (C16)
 	importVerdicts(p, r, "O9.6", "status 200 ⇔ valid batch rests on the prover wiring, the circuits and the strict parameter decoder", "C07", "C16")
+	// "the server answers subsequent requests normally" rests on requests not blocking one another (C13: shared state and
+	// acquire/release pairing on shared synchronisation objects)
+	importVerdicts(p, r, "O9.7", "no request can leave the server in a state in which later requests hang or see its data", "C13")
 }
 
 func posList(p *core.Program, ps []token.Pos) []string {
